@@ -306,6 +306,22 @@ func GenReuse(r *vh.Rand, kind string, ws Weights, noise int) *History {
 	// distinct inputs so that both can be locked and persisted
 	h.Txs[a].Ins = []SlotRef{{Tx: 0, Index: 0}}
 	h.Txs[b].Ins = []SlotRef{{Tx: 0, Index: 1}}
+	// C contends for A's slot (output, deposit or mint batch); locked with
+	// fork=true it prunes A.  A's key reservations must outlive A's body.
+	c := 4
+	pruneA := r.Chance(1, 2)
+	switch r.Intn(3) {
+	case 0:
+		h.Txs[c] = TxSpec{Kind: "script", Tag: "C" + h.Txs[c].Tag, Ins: []SlotRef{{Tx: 0, Index: 0}}, Outs: [][]int{{6 - r.Intn(2)*6}}}
+	case 1:
+		dp := DepositPool()
+		d1, d2 := dp[4], dp[4]
+		h.Txs[a] = TxSpec{Kind: "deposit", Tag: "A" + h.Txs[a].Tag, Dep: &d1, Outs: h.Txs[a].Outs}
+		h.Txs[c] = TxSpec{Kind: "deposit", Tag: "C" + h.Txs[c].Tag, Dep: &d2, Outs: [][]int{{}}}
+	case 2:
+		h.Txs[a] = TxSpec{Kind: "mint", Tag: "A" + h.Txs[a].Tag, Batch: 9, Amount: 1, Outs: h.Txs[a].Outs}
+		h.Txs[c] = TxSpec{Kind: "mint", Tag: "C" + h.Txs[c].Tag, Batch: 9, Amount: int64(1 + r.Intn(2)), Outs: [][]int{{}}}
+	}
 	w, err := BuildWorld(h)
 	if err != nil {
 		panic(err)
@@ -334,6 +350,15 @@ func GenReuse(r *vh.Rand, kind string, ws Weights, noise int) *History {
 	}
 	if state == 2 {
 		push(OpSpec{Op: "finalize", Txs: []int{a}})
+	}
+	if state == 0 && pruneA && r.Bool() {
+		push(OpSpec{Op: "lockinputs", Tx: a}) // reserved and locked, never persisted
+	}
+	if pruneA {
+		push(OpSpec{Op: "lockinputs", Tx: c, Fork: true})
+		if r.Bool() {
+			push(OpSpec{Op: "writetx", Tx: c})
+		}
 	}
 	some(r.Intn(noise + 1))
 	for k := r.Range(2, 5); k > 0; k-- {
